@@ -321,7 +321,11 @@ def step (args : List String) : String :=
         let grants := grantsFn grantList
         let m : Msg := toMsg { typ, metaSigners, creator, authf }
         let viaGov := sc.startsWith "gov"
-        let ante := viaGov || (h != "pre" && sigCheck typ txSigners metaSigners authf && anteOk m grants)
+        -- `<scenario>@<k>`: the message is wrapped in k `MsgExec` layers (transaction or contract dispatch)
+        let depth := match sc.splitOn "@" with
+          | [_, d] => (parseNat? d).getD 0
+          | _ => 0
+        let ante := viaGov || (h != "pre" && sigCheck typ txSigners metaSigners authf && decide (depth ≤ maxNesting) && anteOk m grants)
         let authorityOk := authorityOkOf typ creator authf
         let res :=
           if !ante then false
